@@ -9,7 +9,8 @@ stream of tokens: literal text and FORMATTED symbolic numbers (value, format spe
           mdcrd   ONE title line at the first write only, per frame the 3N coordinates `%8.3f` in atom order, ten per line, a newline after the
                   last, then (files with a cell) the line of the three cell lengths `8.3f`;
   mdcrd refusals: once the first write fixed whether the file carries cell lengths, a write with the other kind raises ValueError BEFORE
-                  anything is written (the stream is unchanged), so the file still holds exactly the accepted frames.
+                  anything is written (the stream is unchanged), so the file still holds exactly the accepted frames; the refusal leaves the
+                  handle's state as it was (the same ragged write is refused again, a write of the file's own kind is still accepted).
 The atom-count raggedness of these writers is a recorded finding of the bounded layer (known_findings.txt), not claimed here.
 """
 import numpy as _np
@@ -190,6 +191,12 @@ def mdcrd_writer(ctx, case):
         ctx.cover("refused")
         ctx.ensure("a-write-that-adds-or-drops-the-cell-lengths-is-refused-with-ValueError", o2.raised and o2.exc.name == "ValueError")
         ctx.ensure("refused:nothing-was-written(the-file-holds-exactly-the-accepted-frame)", s2.stream() == before)
+        # the refusal must not change what the file is: the SAME ragged write is refused again, and a write of the file's own kind still goes through
+        ctx.ensure("refused:the-handle-still-knows-whether-the-file-carries-cell-lengths", h2.fields.get("_w_has_box") is first)
+        o3 = ctx.call_method(h2, "write", arr([1]), **kw(second, [1]))
+        ctx.ensure("refused-again:the-same-ragged-write-is-refused-a-second-time", o3.raised and o3.exc.name == "ValueError" and s2.stream() == before)
+        o4 = ctx.call_method(h2, "write", arr([1]), **kw(first, [1]))
+        ctx.ensure("after-a-refusal-a-write-of-the-file's-own-kind-is-accepted", not o4.raised)
         return
     ctx.ensure("second-write:no-exception", not o2.raised)
     if o2.raised or o.raised:
